@@ -312,15 +312,15 @@ def new_store(schema, ctxflags=0):
     return SecState(schema.opts, bool(ctxflags & CFGF['NOCASE']), bool(ctxflags & CFGF['KEYSTRVAL']))
 
 
-DM_MOD, DM_RESET, DM_ANNOT = 1, 2, 4
+DM_MOD, DM_RESET, DM_ANNOT, DM_NOSECMOD = 1, 2, 4, 8
 _TC = {'int': 'i', 'float': 'f', 'str': 's', 'bool': 'b', 'sec': 'S', 'func': 'F', 'ptr': 'p'}
 
 
 def dump_opt(o, mode):
     d = o.decl
     parts = [enc(d.name), '=', _TC[d.kind], 'L' if d.is_list else '', '[%d]' % len(o.values)]
-    if (mode & DM_MOD) and o.modified:
-        parts.append('M')
+    if (mode & DM_MOD) and o.modified and not ((mode & DM_NOSECMOD) and d.kind == 'sec'):
+        parts.append('M' if o.modified is True else '?')
     if (mode & DM_RESET) and o.pristine:
         parts.append('R')
     vs = []
